@@ -218,11 +218,11 @@ func TestC06(t *testing.T) {
 	// incompressible input turns into as many coded bytes: every shard writes
 	// and reads back one long pseudo-random input (the seed varies with shard
 	// and VERIF_SEED). A matter of probability in the quick tier (8 x 24 MiB),
-	// likely in the thorough tier (14 x 128 MiB).
+	// likely in the thorough tier (14 x 256 MiB).
 	enumerate(t, rec, checkC06, func(try func(caseC06) bool) {
 		n := 24 << 20
 		if ev.Thorough() {
-			n = 128 << 20
+			n = 256 << 20
 		}
 		c := caseC06{Cfg: gen.Cfg{DefProps: true, DictCap: 65536, EOSMarker: true}, Mode: "marker", ByteSink: true, Part: gen.Partition{Kind: "cuts", Lens: []int{1 << 20, 3 << 20}},
 			Data: gen.Recipe{{Kind: "random", Len: n, Seed: 7700 + uint64(rec.Shard) + 1000*uint64(rec.Seed)}}}
